@@ -4,6 +4,11 @@ NOTES = ("All checks run /venv/bin/python on bitstring imported from /repo's wor
          "known_findings.json lists genuine defects (open: reported as KNOWN-FINDING; fixed: suppress nothing).")
 NOT_APPLICABLE = {}
 CHECKS = {
+ 'C09': dict(
+    text="Exhaustive enumeration of call histories of the shape [SET options o1; CALL A; X; SET options o2; CALL B] on the real module state: every ordered pair (A, B) of a 53-call alphabet (construct from token strings incl. option-dependent codecs and bits= tokens, fromstring, pack incl. list formats and keyword lengths/values, unpack/readlist/read, Dtype creation with int/float scales observed through the value and type of parse/build, scaled Array arithmetic), every option pair in the menu, X in {nothing, six mutations of A's result, flooding each LRU cache family with maxsize+1 fresh keys (maxsize read from cache_info)}; B's observation must equal the cold table entry (same call, every cache cleared, same options). Thorough adds three-call histories.",
+    design_ref="DESIGN.md section 4 C09",
+    note="Differential against the same implementation on cold caches (absolute values are judged by C02/C05/C10/C11). Caches are discovered by walking the package for cache_clear attributes; options are reset and caches cleared before every history.",
+    technique="exhaustive enumeration of bounded call/option/eviction histories against a cold-cache oracle"),
  'C04': dict(
     text="Exhaustive enumeration of small-heap histories on real objects: CREATE a source through every construction route (incl. string-cache hit, fromstring, bits= of a mutable, external bytearray/memoryview/array/bitarray buffers) ; DERIVE an object through each of ~55 routes (constructors, bits= / .bits, copies, slices, every operator, join, pack, Dtype.build, unpack, cut, split, stream reads, tobitarray, Array construction/slicing/copy, append/prepend/insert/overwrite/replace into another object, lsb0 variants) x 4 target classes ; optionally a second DERIVE hop ; MUTATE any mutable member of the world with each of ~35 mutations ; then re-read every other member (bin, len, hash) and re-create from the same strings. Plus pseudo-mutation: every public attribute of Bits / ConstBitStream objects is called with 15 argument tuples and the object re-read.",
     design_ref="DESIGN.md section 4 C04",
